@@ -97,7 +97,7 @@ Proof.
   destruct t; try discriminate; cbn [bword val conv].
   - destruct (q255 w) as [b|]; cbn [rbind]; [|discriminate]. intros _ E. exact E.
   - intros _ E. exact E.
-  - intros _ E. exact E.
+  - destruct (as_f64 w) as [f|]; cbn [of_opt]; [|discriminate]. intros _ E. exact E.
 Qed.
 
 Lemma rowi_good n g i : group_good n g -> (i < n)%nat -> grow g i = Ok (rowi g i) /\ row_good g (rowi g i).
@@ -234,17 +234,19 @@ Qed.
 Lemma atok_tk t w : ty_supported t = true -> good t w -> atok t w = Ok (tk t w).
 Proof.
   intros Ht (s & E & _). unfold tk. destruct t; try discriminate; cbn [atok bword] in *; try reflexivity.
-  rewrite E. reflexivity.
+  - rewrite E. reflexivity.
+  - unfold dtok. destruct (as_f64 w); [reflexivity|discriminate].
 Qed.
 
 (* the float64 the ASCII reader parses out of the token, and what it stores *)
-Definition tk_f64 (t : sty) (w : N) : N := match t with UChar => cvI (Z.of_N (sw t w)) | _ => cvF w end.
+Definition tk_f64 (t : sty) (w : N) : N :=
+  match t with UChar => cvI (Z.of_N (sw t w)) | Double => vl t w | _ => cvF w end.
 Lemma tok_f64_tk t w : ty_supported t = true -> good t w -> tok_f64 (tk t w) = Some (tk_f64 t w).
 Proof.
-  intros Ht (s & E & F). unfold tk, tk_f64, sw. destruct t; try discriminate; cbn [atok bword] in *.
+  intros Ht (s & E & F). unfold tk, tk_f64, sw, vl. destruct t; try discriminate; cbn [atok bword val] in *.
   - rewrite E. reflexivity.
   - unfold ftok. destruct (int_of_f32 w); reflexivity.
-  - unfold ftok. destruct (int_of_f32 w); reflexivity.
+  - unfold dtok. destruct (as_f64 w) as [f|]; [|discriminate]. cbn [of_opt rbind]. destruct (as_int w); reflexivity.
 Qed.
 
 Lemma read_members_ascii t ws : forall (P Sx : list tok),
